@@ -352,7 +352,7 @@ func (r *Resolver) onSetOrList(g, vs *Scope, name string, t *parser.Type, v *par
 			if err != nil {
 				return "", err
 			}
-			ss = append(ss, str+",")
+			ss = append(ss, r.elemCode(g, t.ValueType, str)+",")
 		}
 		if len(ss) == 0 {
 			return goType + "{}", nil
@@ -389,7 +389,7 @@ func (r *Resolver) onMap(g, vs *Scope, name string, t *parser.Type, v *parser.Co
 			if err != nil {
 				return "", err
 			}
-			kvs = append(kvs, fmt.Sprintf("%s: %s,", key, val))
+			kvs = append(kvs, fmt.Sprintf("%s: %s,", key, r.elemCode(g, t.ValueType, val)))
 		}
 		if len(kvs) == 0 {
 			return goType + "{}", nil
@@ -404,6 +404,19 @@ func (r *Resolver) onMap(g, vs *Scope, name string, t *parser.Type, v *parser.Co
 	}
 	// fault tolerance
 	return goType + "{}", nil
+}
+
+// elemCode adapts the initialization code of a list/set element or map value to the
+// element type chosen by getContainerTypeName: a struct-like resolves to a pointer, but
+// containers hold struct values when value_type_in_container is set.
+func (r *Resolver) elemCode(g *Scope, t *parser.Type, code string) string {
+	if t.Category.IsStructLike() && r.util.Features().ValueTypeForSIC && !checkRefInterfaceType(r.util, g, t) {
+		if strings.HasPrefix(code, "&") {
+			return code[1:]
+		}
+		return "*" + code
+	}
+	return code
 }
 
 func (r *Resolver) onStructLike(g, vs *Scope, name string, t *parser.Type, v *parser.ConstValue) (string, error) {
